@@ -62,7 +62,7 @@ func commonChecks(c *Chain, out *[]string) {
 func init() {
 	register(&Scenario{
 		Name:  "basic",
-		Knobs: SpecKnobs{AllForksInside: true},
+		Knobs: SpecKnobs{AllForksInside: true, TwoAttesterSlashings: true},
 		Gen:   GenesisKnobs{MinVals: 48, MaxVals: 96, Eth1Share: 30, AboveShare: 12, BelowShare: 8},
 		Rates: OpRates{Exit: 8, PSlash: 4, ASlash: 4, BLSChange: 20, Deposit: 10},
 		Init:  func(c *Chain) { c.SpareShare = 65; c.VoteAlways = true; c.NoSkipBeforePhase0Deposit = true },
@@ -82,6 +82,10 @@ func init() {
 			}
 			try("exit", p.AddExit)
 			try("pslash", p.AddProposerSlashing)
+			if c.Vars["aslash_overlap"] == 0 && p.Epoch >= 1 && p.AddOverlappingAttesterSlashings() {
+				// once per chain: two attester slashings with overlapping index sets in one block
+				c.Vars["aslash_overlap"] = 1
+			}
 			try("aslash", func(v common.ValidatorIndex) bool {
 				return p.AddAttesterSlashing([]common.ValidatorIndex{v}, c.Rng.Bool())
 			})
@@ -91,7 +95,11 @@ func init() {
 			if c.Stats.Get(f+".deposit") == 0 && c.Vars["dep_"+f] == 0 {
 				c.Vars["dep_"+f] = 1
 				c.NewDepositor(c.fractionalAboveMax(), c.Rng.Chance(40))
-				c.NewDepositor(c.Spec.MAX_EFFECTIVE_BALANCE, c.Rng.Chance(40))
+				if c.Stats.Get("zero_amount_depositors_queued") == 0 {
+					c.ZeroAmountDepositor()
+				} else {
+					c.NewDepositor(c.Spec.MAX_EFFECTIVE_BALANCE, c.Rng.Chance(40))
+				}
 				c.TopUp(common.ValidatorIndex(c.Rng.Intn(len(c.Vals))), c.Spec.MIN_DEPOSIT_AMOUNT+c.Spec.EFFECTIVE_BALANCE_INCREMENT/4)
 				c.Stats.Add("deposits_queued", 3)
 			}
